@@ -10,6 +10,8 @@ CONSTANTS
   Reverse = FALSE
   CellNs = {0, 32768}
   CellRead = "unsigned"
+  FreshNs = {0, 7}
+  KeepFresh = FALSE
   Objects = {0, 1}
   MaxWrites = 2
   SeqLen = 1
